@@ -18,7 +18,7 @@ RULE = ("plan = frame (0..12 rows quick / 0..40 thorough) with 1..3 group column
         "missing/±inf/huge key, or ≥ 2 group columns. Distinct = plan hash.")
 CASES = {"quick": 1500, "thorough": 8000}
 
-KEY_KINDS = ["f", "i", "b", "s", "s", "u", "d", "t", "td", "o", "oi", "ob", "u8", "i8", "i32", "f32"]
+KEY_KINDS = ["f", "i", "b", "s", "s", "u", "d", "t", "td", "o", "oi", "ob", "u8", "i8", "i32", "f32", "tn"]
 HELPERS = ["all", "any", "count", "count_unique", "first", "last", "nth", "min", "max", "mode", "mean", "median", "quantile",
            "std", "var", "sum"]
 
